@@ -298,16 +298,32 @@ func c17R4(c *core.Ctx) {
 		}
 		nSet++
 		// only data frames
-		nr, isEx := st.Val.(*ssa.Extract)
-		okFrame := isEx && nr.Index == 1
-		if okFrame {
+		// the stored reader: NextReader's result, possibly through a phi whose other edges are
+		// the nil of an error path
+		var cands []ssa.Value
+		if phi, isPhi := st.Val.(*ssa.Phi); isPhi {
+			for _, e := range phi.Edges {
+				if !eng.IsNilConst(e) {
+					cands = append(cands, e)
+				}
+			}
+		} else {
+			cands = append(cands, st.Val)
+		}
+		okFrame := len(cands) > 0
+		for _, cv := range cands {
+			nr, isEx := cv.(*ssa.Extract)
+			if !isEx || nr.Index != 1 {
+				okFrame = false
+				continue
+			}
 			op := extractOf(nr.Tuple, 0)
 			bin := eng.EqPred("opCode is Binary or Text", true, func(x, y ssa.Value) bool {
 				k, isC := eng.ConstInt(y)
 				return x == op && isC && (k == 1 || k == 2)
 			})
 			g := eng.Guarded(st, bin)
-			okFrame = g.Guarded && g.Edges > 0
+			okFrame = okFrame && g.Guarded && g.Edges > 0
 		}
 		c.Check(okFrame, rule, name+":only data frames become the reader", st.Pos(), "control frames are skipped", "a non-data frame can become the current reader")
 	})
